@@ -1,7 +1,7 @@
 """C02 -- no request reaches a filesystem object outside the configured roots.
 Model: coq/Url/*.v ; harness: harness/url_h.c (+ harness/roots_h.c for alias/vhost/x-sendfile)"""
 import itertools, os
-import vlib
+import vlib, roots
 from vlib import hx, unhx
 
 LINK = vlib.COMMON_SRC
@@ -214,6 +214,17 @@ def run(ctx):
                        "x 145 http-parseopts sets, longer exhaustive under 6 sets, simplify/urldecode exhaustive over {/ . a NUL}/{% 2 f G NUL 7 F a}, "
                        "mutated traversal corpus; non-trivial = target accepted (a path was derived); distinct = distinct input lines")
     ctx.add_samples([dict(case=describe(c), impl=o) for c, o in list(zip(cases, out_i))[:: max(1, len(cases) // 6)]])
+    # mapping stages behind the URL pipeline: alias, vhost, evhost, userdir, symlink walk (in-process), then the assembled server
+    ucases = roots.gen_unit_cases(ctx)
+    out_i2, _, found2 = correspond(ctx, "C02", "roots_h", "ROOTS", ucases, roots.monitor_unit, roots.describe_unit, "roots-unit", link=roots.LINK)
+    ctx.cov["distinct_nontrivial"] += len(set(c for c, o in zip(ucases, out_i2) if o.split()[:1] not in (["N"], ["X"], ["?"])))
+    ctx.add_samples([dict(case=roots.describe_unit(c)[:300], impl=o[:200]) for c, o in list(zip(ucases, out_i2))[:: max(1, len(ucases) // 4)]])
+    found3 = roots.run_system(ctx)
+    found = found or found2 or found3
+    ctx.cov["rule"] += ("; mapping stages: mod_alias_remap over every tail of length <= 5 after each alias key, simple-vhost/evhost path construction over hosts up to length 4-6 from {a b . : 1 / 8}, "
+                        "userdir over names up to length 4, symlink walk over random lstat tables; system: 15 server configurations (alias x3 parseopts, simple-vhost x3, evhost x6, userdir x2, "
+                        "follow-symlink off) with debug.log-request-handling compared line by line with the model's uri.path/doc_root/basedir/physical.path, X-Sendfile (CGI) and X-Sendfile2 (FastCGI) "
+                        "values, WebDAV COPY/MOVE Destination spellings judged by where the bytes land")
     if not ok and not found:
         ctx.proof_broken_violation()
 
@@ -221,10 +232,20 @@ def run(ctx):
 def replay(ctx, path):
     import json, shutil
     obj = json.load(open(path))
+    if obj["replay"].get("kind") in ("system", "crash"):
+        # a finding on the running server: run the server scenarios again and say whether the same class of violation is still there
+        ctx.cov.setdefault("distribution", {})
+        roots.run_system(ctx)
+        same = [v for v in ctx.violations if v[0].split(":")[:2] == obj["key"].split(":")[:2]]
+        print("recorded:", obj["what"]); print("now     :", same[0][1] if same else "not reproduced")
+        shutil.rmtree(ctx.scratch, ignore_errors=True)
+        return 1 if same else 0
     case = obj["replay"].get("case")
-    exe = vlib.cc_harness(ctx, obj["replay"].get("harness", "url_h"), link_srcs=LINK)
-    model = vlib.model_driver("C02")
+    hn = obj["replay"].get("harness", "url_h")
+    exe = vlib.cc_harness(ctx, hn, link_srcs=roots.LINK if hn == "roots_h" else LINK)
+    model = vlib.model_driver("ROOTS" if hn == "roots_h" else "C02")
     _, oi, _ = vlib.run_lines(exe, [case]); _, om, _ = vlib.run_lines(model, [case])
-    print("input:", describe(case)); print("impl :", oi); print("model:", om); print("monitor:", monitor(case, oi[0]) if oi else None)
+    mon, desc = (roots.monitor_unit, roots.describe_unit) if hn == "roots_h" else (monitor, describe)
+    print("input:", desc(case)); print("impl :", oi); print("model:", om); print("monitor:", mon(case, oi[0]) if oi else None)
     shutil.rmtree(ctx.scratch, ignore_errors=True)
-    return 0 if oi == om and not (oi and monitor(case, oi[0])) else 1
+    return 0 if oi == om and not (oi and mon(case, oi[0])) else 1
